@@ -8,6 +8,7 @@ import (
 	"math/rand"
 	"os"
 	"path/filepath"
+	"sort"
 	"strings"
 )
 
@@ -277,6 +278,8 @@ func (osObj *VirtualOS) Environ() []string {
 	for k, v := range osObj.env {
 		result = append(result, k+"="+v)
 	}
+	// Not in the order of the map's iteration, which changes from call to call
+	sort.Strings(result)
 	return result
 }
 
